@@ -139,6 +139,11 @@ func runCheck(prop, tier, repo, verif, only string, updateBaseline bool) int {
 	}
 	level := manifestLevel(verif, prop)
 	evPath := filepath.Join(verif, "evidence", prop+".json")
+	if only != "" {
+		// partial runs (debugging, replay of one obligation) must not replace the property's evidence
+		evPath = filepath.Join(verif, "out", prop, "evidence_partial.json")
+		os.MkdirAll(filepath.Dir(evPath), 0o755)
+	}
 	os.MkdirAll(filepath.Dir(evPath), 0o755)
 	replayDir := filepath.Join(verif, "replays", prop)
 	os.MkdirAll(replayDir, 0o755)
